@@ -527,6 +527,13 @@ class Assembler:
                 f = self.fold_const(v, it)
                 if f:
                     edits.append(Edit(f[0], f[1], f[2] + " /* " + v.render(f[0], f[1]).replace("*/", "* /") + " */", "R4", "constant folded"))
+            if ("const:" + path) in self.unit.derives and it.kind == "const":
+                # R14: `const N: T = e;` -> `exec const N: T ensures <spec> { e }` (Verus consts are
+                # dual-mode by default and may not call exec functions)
+                eq = next(q for q in range(it.kw, it.end) if v.is_p(q, "="))
+                inserts.append(Ins(it.kw, "exec", "exec-const"))
+                edits.append(Edit(eq, eq + 1, "/*@L constspec*/ ensures " + self.unit.derives["const:" + path] + " /*@E*/ {", "R14", "const initialiser becomes the body of an exec const"))
+                edits.append(Edit(it.end - 1, it.end, "}", "R14", "const initialiser becomes the body of an exec const"))
             if path in self.unit.derives and it.kind in ("struct", "enum"):
                 inserts.append(Ins(it.head, f"#[derive({self.unit.derives[path]})]", "derive"))
             if "external_body" in flags:
